@@ -1,17 +1,368 @@
 /-
-C12 — in-memory and file-backed value stores are observationally equivalent (work in progress: theorems are added below).
+C12 — in-memory and file-backed value stores are observationally equivalent.
+
+A composition over the models of C01 (`Model/Metrics`, in-process metric objects over an abstract value type), C09
+(`Model/Values`, the `MultiProcessValue` closure writing per-type files), C08 (`Model/Multiprocess`, the collector) and
+C13 (`Model/Utils.floatToGoString`), glued by `Model/Backends`:
+
+  runMutex ds h      the history through `Model/Metrics` (cells in memory);
+  runMmap ds pid clock h   the SAME control flow, every cell a `MmapedValue` — the history compiled to value-object
+                     calls and run by `Values.run` from the fresh directory;
+  mpCollect          the collector model on the resulting directory;
+  normalise          (Spec/Backends) removes exactly the differences the statement lists.
+
+Main theorem `backends_equivalent_partial`: for EVERY history (any length, any label sets, any bucket layouts, all ten
+gauge modes, V abstract) the two normalised collections are the same set of `((sample name, sorted labels), value)`.
+It is `_partial`: three shapes the statement does not list as intended differences are excluded by hypothesis, each
+CONFIRMED ON THE REAL CODE and exhibited by the models (kernel-checked counter-examples below):
+
+  F14  a histogram whose first bound is negative (`not (upper_bounds[0] >= 0)`): the in-process `_child_samples` omits
+       `_sum`, the multiprocess collector reports it (hypothesis `hF14`; `negative_first_bound_sum_differs`);
+  F25  `remove()` / `clear()`: in multiprocess mode the library only warns ("Removal of labels has not been implemented
+       in multi-process mode yet"); the entries stay in the file and a re-created child continues from them
+       (hypothesis `NoRemoval`; `remove_not_propagated`, `recreated_child_continues`);
+  --   bucket layouts with numerically equal bounds (`-0.0` and `0.0`, or a repeated bound): the collector merges the
+       buckets by `float(le)`, the in-process path lists them separately (hypothesis `BoundsOK.nodup/sorted`; outside
+       the collector model, whose bounds are compared by the abstract `lt`).
+A gauge label named `pid` is C08's known finding (`C08:gauge-label-named-pid`) and an excluded precondition here
+(`WFAllB.noPid`).  Metric names are pairwise different (one registry).
+
+Hypotheses that are laws of the value type (true of IEEE doubles under numeric equality; discharged for `Int` below):
+`0 + a = a` (the collector's `defaultdict(float)` `+=`), `not (0 < 0)`, the clock is positive (`time.time()`).
+What is needed from C13 is `BoundsOK`: every rendered bound reads back (`float(le text)`) as a bound that renders to
+the same text — `floatToGoString` is a fixpoint on rendered bounds; `float`/`repr` are CPython's (trusted), so this
+is a hypothesis, validated by the harness on every bound of every generated layout.
 -/
-import PromVerif.Spec.Backends
+import PromVerif.Lemmas.BackendsCompose
 import PromVerif.Props.C01
 import PromVerif.Props.C08
 import PromVerif.Props.C09
 import PromVerif.Props.C13
 
 namespace PromVerif.Props.C12
+open PromVerif.Py PromVerif.Generated.Multiprocess
+open PromVerif.Model.Metrics (Val Decl Kind Child Action Addr Reg callMethod)
+open PromVerif.Model.Multiprocess (VOps BOps Labels SKey)
+open PromVerif.Model.Values (Params mmapKey)
+open PromVerif.Model.Backends
+open PromVerif.Spec.Backends
+open PromVerif.Lemmas.Backends
+open PromVerif.Lemmas.Metrics (childOf metricOf upd)
 set_option autoImplicit false
 
 /-- the extractor found every site C12's models depend on (metrics.py, multiprocess.py / values.py, utils.py) -/
 theorem extract_ok : Generated.Metrics.extractOk = true ∧ Generated.Multiprocess.extractOk = true ∧
     Generated.Utils.extractOk = true := by decide
 
+variable {V : Type} [Val V] {B : Type} [DecidableEq B]
+
+/-! ## 1. one front end, one value-store interface -/
+
+/-- **The in-memory run is C01's run** on the calls that reach the metric objects (`Gauge.inc/dec` in a mostrecent mode
+raise RuntimeError before anything else, on both back-ends: only their `labels(...)` part is executed).  Hence every
+theorem of C01 — `collect_refines_spec`, `rejected_is_frame`, `label_addressing`, … — holds of it; the file-backed run
+shares this control flow by construction (`Model/Backends.stepVops` decides with `Metrics.step`). -/
+theorem inmemory_is_c01_run (ds : List (MDecl V)) (h : List (Model.Metrics.Op V)) :
+    runMutex ds h = (Model.Metrics.run (Reg.fresh (ds.map (·.decl))) (h.map (front ds))).1 :=
+  runMutex_eq ds h
+
+/-- … and is the replay of the reference histories of the accepted calls (C01's `state_is_replay_of_accepted`) -/
+theorem inmemory_is_replay (ds : List (MDecl V)) (h : List (Model.Metrics.Op V)) :
+    runMutex ds h = List.zipWith metricOf (ds.map (·.decl))
+      (Spec.Metrics.history (ds.map (·.decl)) (Model.Metrics.accepted (regFresh ds) (h.map (front ds)))) := by
+  rw [runMutex_eq]
+  exact PromVerif.Props.C01.state_is_replay_of_accepted _ _
+
+/-- **`MutexValue` and `MmapedValue` are driven through one interface**: an ACCEPTED method call changes the in-memory
+cells of the child exactly by the value-object calls (`inc` = `+=`, `set` = `=`) that the file-backed run issues to the
+child's `MmapedValue`s (`cellUpdates`, statement order of metrics.py) -/
+theorem one_interface (d : MDecl V) (hs : Supported d) (t : V) (act : Action V) (c : Child V)
+    (hok : (callMethod d.decl true act (some c)).2 = .ok) :
+    cellValues d (upd d.decl act c) = applyUpds (cellValues d c) (cellUpdates d t act) :=
+  upd_cells d hs t act c hok
+
+/-! ## 2. both back-ends refine the same cell spec -/
+
+/-
+FULL STATEMENT: for every history.  MISSING PART: histories containing `remove()` / `clear()` — in multiprocess mode
+these do not reach the files (finding F25), after which a re-created child's cells differ (`recreated_child_continues`).
+-/
+/-- **Cells agree**: after any history without remove/clear, for every live child and every cell of it, the entry in
+the process's file holds the in-memory (`MutexValue`) value of that cell, and the cached value of EVERY `MmapedValue`
+constructed for that cell is what the file holds (C09 `caches_coherent_partial`) — one value, three views. -/
+theorem cells_agree_partial (ds : List (MDecl V)) (hwf : WFAll ds) (pid : Str) (clock : Nat → V)
+    (hclk : ∀ n, (voOf V).truthy (clock n) = true ∧ Val.lt (Val.zero : V) (clock n) = true)
+    (h : List (Model.Metrics.Op V)) (hnr : NoRemoval h) (i : Nat) (d : MDecl V) (hist : Spec.Metrics.Hist V)
+    (hd : ds[i]? = some d)
+    (hh : (Spec.Metrics.history (ds.map (·.decl)) (Model.Metrics.accepted (regFresh ds) (h.map (front ds))))[i]? = some hist)
+    (ka : List Str × List (Action V)) (hka : ka ∈ childList d hist) (pos : Nat) (p : Params) (v : V)
+    (hp : (cellParams d ka.1)[pos]? = some p) (hv : (cellValues d (childOf d.decl ka.2))[pos]? = some v) :
+    (Model.Values.cellVal (voOf V) (runMmap ds pid clock h).disk (fileOf pid p) (mmapKey p)).1 = v ∧
+      ∀ o ∈ (runMmap ds pid clock h).values, o.params = p → o.value = v := by
+  obtain ⟨ps', hc⟩ := runMmap_core ds hwf pid clock hclk h hnr
+  have h1 := hc.cells i d hist hd hh ka hka pos p v hp hv
+  refine ⟨h1, ?_⟩
+  intro o ho hop
+  -- C09: the cache of every live value object is what its file holds
+  have hcoh := PromVerif.Props.C09.caches_coherent_partial (voOf V) pid (compile ds clock h) hc.vinv.inv.uniq o ho
+  have hb := hc.vinv.inv.bound.bound o ho
+  have hpid : (runMmap ds pid clock h).pid = pid := hc.vinv.hpid
+  have : Model.Values.cellVal (voOf V) (runMmap ds pid clock h).disk o.file o.key = (o.value, o.ts) := hcoh
+  rw [hb.1, hb.2, hop, hpid] at this
+  have e := congrArg Prod.fst this
+  simp only at e
+  rw [← e]
+  exact h1
+
+/-! ## 3. the collector on ONE process's files -/
+
+/-- **Single-process collection, one family.**  For a directory whose contributions to metric `d` are the entries of
+`d`'s value objects (which `Lemmas/BackendsFiles.contribs_eq` proves of every reachable state), the spec that C08 proves
+the collector model computes reports exactly, child by child (`mpChild`):
+  * counter / summary cells and the histogram `_sum` cell: `0.0 + value` — the sum over a single file;
+  * histogram buckets: the stored NON-cumulative counts cumulated in bound order (`childSeries`: the collector's sort
+    leaves the declared order, each merged count is `0.0 + count`), `_count` their total;
+  * gauges: min / max of one value = that value, sum = `0.0 + value`, all / liveall the value under `labels + pid`,
+    mostrecent the value if its set-time is positive and NO SERIES otherwise. -/
+theorem collector_on_one_process (bo : BOps B) (Bs : List B) (d : MDecl V) (hw : WFDeclB bo Bs d)
+    (fs : List (Spec.Multiprocess.SFile V)) (pid : Str) (disk : List (Str × Model.Values.Store V)) (h : Spec.Metrics.Hist V)
+    (hcs : Spec.Multiprocess.contribs fs d.decl.name = expContribs d pid disk h)
+    (hnd : ((childList d h).map (·.1)).Nodup) (hlen : ∀ ka ∈ childList d h, ka.1.length = d.decl.labelnames.length)
+    (k : SKey) (v : V) :
+    Spec.Multiprocess.value (voOf V) bo fs d.decl.name k = some v ↔
+      ∃ ka ∈ childList d h, (k, v) ∈ mpChild bo Bs d pid disk ka :=
+  family_value bo Bs d hw fs pid disk h hcs hnd hlen k v
+
+/-- **Bucket labels agree on both paths.**  The multiprocess path stores `le = floatToGoString(bound)` in the key, reads
+it back with `float`, sorts, and renders again; the in-process path renders the bound.  Given the fixpoint hypothesis
+(`BoundsOK`: the text read back renders to the same text), `normalise` sends the collector's `labels + le` and the
+in-process `labels + le` to the same sorted label list. -/
+theorem le_labels_agree (d : MDecl V) (hln : d.decl.labelnames.Nodup)
+    (hpid : pidMode d = true → "pid".toList ∉ d.decl.labelnames) (key : List Str) (hp : pidMode d = false)
+    (hle : leName ∉ d.decl.labelnames) (t : Str) :
+    normLabels d (Model.Multiprocess.pyDict (plainLabels d key ++ [(leName, t)]))
+      = normLabels d (d.decl.labelnames.zip key ++ [(leName, t)]) :=
+  normLabels_bucket d hln hpid key hp hle t
+
+/-- **One child, after `normalise`**: the series the collector reports for the child and the child's in-process samples
+are the same set — histogram buckets rebuilt by cumulation = the `_child_samples` cumulation, `_count` = the last
+(`+Inf`) bucket = the total, `pid` dropped, a never-set mostrecent gauge absent from both. -/
+theorem child_collections_agree (bo : BOps B) (Bs : List B) (d : MDecl V) (hw : WFDeclB bo Bs d)
+    (hnopid : isGauge d = true → pidLabel ∉ d.decl.labelnames)
+    (hsum : ∀ bs, d.decl.kind = Kind.histogram bs → Model.Metrics.sumExposed (bs.map (·.1)) = true)
+    (hz : ∀ a : V, Val.add Val.zero a = a) (hlt : Val.lt (Val.zero : V) Val.zero = false)
+    (ns : Str → Labels → Bool) (pid : Str) (disk : List (Str × Model.Values.Store V)) (ka : List Str × List (Action V))
+    (hns : isMostRecent d = true → ns d.decl.name (plainLabels d ka.1) = !hasSet ka.2)
+    (hcells : ∀ (pos : Nat) (p : Params) (v : V), (cellParams d ka.1)[pos]? = some p →
+      (cellValues d (childOf d.decl ka.2))[pos]? = some v → (cv pid disk p).1 = v)
+    (hts : isMostRecent d = true → ∀ p ∈ cellParams d ka.1, TsOK ka.2 (cv pid disk p).2)
+    (kv : SKey × V) :
+    (∃ x ∈ mpChild bo Bs d pid disk ka, normD d ns (mpFlat d x).name (mpFlat d x).labels (mpFlat d x).value = some kv) ↔
+      (∃ f ∈ inChild d ka, normD d ns f.name f.labels f.value = some kv) :=
+  child_norm bo Bs d hw hnopid hsum hz hlt ns pid disk ka hns hcells hts kv
+
+/-! ## 4. the property -/
+
+/-
+FULL STATEMENT (does not hold of the code):
+  theorem backends_equivalent : for EVERY history h,
+    normalise (mpCollect (runMmap ds pid clock h)) = normalise (collect (runMutex ds h))   as finite maps.
+MISSING PART, exactly: (a) `hF14` — no histogram whose first bound is negative (finding F14: the multiprocess path
+exposes `_sum`, the in-process path does not); (b) `hnr` — no `remove()` / `clear()` in the history (finding F25: not
+implemented in multiprocess mode); (c) the bounds of a histogram read back strictly increasing (`BoundsOK` in `hwf`):
+numerically equal bounds (`-0.0`/`0.0`, repeats) are merged by the collector.  Equality is stated as equality of the
+SETS of `((sample name, sorted labels), value)` pairs; that the in-process side is a finite map (no key twice) needs in
+addition that no two metrics claim one sample name (C06) and is not restated here.
+-/
+/-- **In-memory and file-backed value stores are observationally equivalent.**  For every single-process history without
+remove/clear over counters, gauges (every multiprocess mode), summaries and histograms (no negative first bound) — any
+length, any label sets, any bucket layouts — collecting through the multiprocess collector SUCCEEDS and yields, after
+`normalise` (`_created`, `pid` on all/liveall gauges, order, never-set mostrecent gauges), exactly the series and values
+of the in-process collection of the same history. -/
+theorem backends_equivalent_partial (bo : BOps B) (ds : List (MDecl V)) (bsOf : MDecl V → List B)
+    (hwf : WFAllB bo ds bsOf)
+    (hF14 : ∀ d ∈ ds, ∀ bs, d.decl.kind = Kind.histogram bs → Model.Metrics.sumExposed (bs.map (·.1)) = true)
+    (hz : ∀ a : V, Val.add Val.zero a = a) (hlt : Val.lt (Val.zero : V) Val.zero = false)
+    (pid : Str) (hpid : '_' ∉ pid) (clock : Nat → V)
+    (hclk : ∀ n, (voOf V).truthy (clock n) = true ∧ Val.lt (Val.zero : V) (clock n) = true)
+    (h : List (Model.Metrics.Op V)) (hnr : NoRemoval h) :
+    ∃ out, mpCollect bo (runMmap ds pid clock h) = .ok out ∧
+      ∀ kv, kv ∈ normalise ds (neverSetOf ds h) (flatMp out) ↔
+        kv ∈ normalise ds (neverSetOf ds h) (flatMutex ds (Model.Metrics.collect (runMutex ds h))) := by
+  obtain ⟨ps', hc⟩ := runMmap_core ds hwf.toWFAll pid clock hclk h hnr
+  have habs := Lemmas.Metrics.run_fresh_abs (ds.map (·.decl)) (h.map (front ds))
+  have hlen : (Spec.Metrics.history (ds.map (·.decl))
+      (Model.Metrics.accepted (regFresh ds) (h.map (front ds)))).length = ds.length := by
+    have := forall2_length _ _ _ habs.ok
+    rw [List.length_map] at this
+    exact this
+  obtain ⟨out, h1, h2⟩ := compose bo ds bsOf hwf hF14 hz hlt pid hpid _ ps' _ hc hlen
+  refine ⟨out, h1, ?_⟩
+  intro kv
+  rw [inmemory_is_replay ds h]
+  exact h2 kv
+
 end PromVerif.Props.C12
+
+/-! ## 5. non-vacuity and the counter-examples behind the hypotheses (`V := Int`) -/
+
+namespace PromVerif.Props.C12.Example
+open PromVerif.Py PromVerif.Model.Metrics PromVerif.Model.Backends PromVerif.Spec.Backends PromVerif.Lemmas.Backends
+open PromVerif.Model.Multiprocess (BOps Labels SKey)
+open PromVerif.Props.C01.Example (intVal)
+set_option autoImplicit false
+
+/-- bounds as positions in a table of `le` texts: `float(text)` is the position, `floatToGoString` the text there -/
+def tblB (texts : List Str) : BOps Nat :=
+  ⟨fun t => let i := texts.findIdx (· = t); if i < texts.length then some i else none,
+   fun a b => decide (a < b), fun i => texts.getD i []⟩
+
+def bo3 : BOps Nat := tblB ["1.0".toList, "5.0".toList, "+Inf".toList]
+
+/-- a labelled counter, a labelled gauge in mode `livemostrecent`, an unlabelled gauge in mode `all`, a summary and a
+histogram with bounds 1, 5, +Inf -/
+def ds : List (MDecl Int) :=
+  [ ⟨⟨"c".toList, .counter, ["l".toList, "k".toList]⟩, "a counter".toList, []⟩,
+    ⟨⟨"g".toList, .gauge, ["l".toList]⟩, "a gauge".toList, "livemostrecent".toList⟩,
+    ⟨⟨"a".toList, .gauge, []⟩, "another".toList, "all".toList⟩,
+    ⟨⟨"s".toList, .summary, []⟩, "a summary".toList, []⟩,
+    ⟨⟨"h".toList, .histogram [(1, "1.0".toList), (5, "5.0".toList), (1000000, "inf".toList)], ["method".toList]⟩,
+      "a histogram".toList, []⟩ ]
+
+def bsOf (d : MDecl Int) : List Nat :=
+  match d.decl.kind with
+  | .histogram _ => [0, 1, 2]
+  | _ => []
+
+/-- a history: two children of the counter (one addressed twice, a rejected negative increment), a mostrecent gauge
+child that is only touched, one that is set, a blocked `inc`, the unlabelled gauge, summary and histogram observations
+(one exactly on a bound) -/
+def hist : List (Op Int) :=
+  [ .call 0 (.labels [.str "x".toList, .str "y".toList] []) (.inc 2),
+    .call 0 (.labels [.str "x".toList, .str "z".toList] []) (.inc 3),
+    .call 0 (.labels [.str "x".toList, .str "y".toList] []) (.inc 4),
+    .call 0 (.labels [.str "x".toList, .str "y".toList] []) (.inc (-1)),
+    .call 1 (.labels [.str "never".toList] []) .touch,
+    .call 1 (.labels [.str "once".toList] []) (.set 7),
+    .call 1 (.labels [.str "once".toList] []) (.inc 1),
+    .call 2 .none (.set 9),
+    .call 2 .none (.dec 4),
+    .call 3 .none (.observe 6),
+    .call 4 (.labels [.str "GET".toList] []) (.observe 5),
+    .call 4 (.labels [.str "GET".toList] []) (.observe 7) ]
+
+def clock (n : Nat) : Int := (n : Int) + 1
+
+theorem int_zero_add : ∀ a : Int, Val.add Val.zero a = a := fun a => Int.zero_add a
+
+theorem int_lt_irrefl : Val.lt (Val.zero : Int) Val.zero = false := by decide
+
+theorem clock_pos : ∀ n, (voOf Int).truthy (clock n) = true ∧ Val.lt (Val.zero : Int) (clock n) = true := by
+  intro n
+  have h1 : (voOf Int).truthy (clock n) = !((clock n) == (0 : Int)) := rfl
+  have h2 : Val.lt (Val.zero : Int) (clock n) = decide ((0 : Int) < clock n) := rfl
+  rw [h1, h2]
+  unfold clock
+  constructor
+  · simp only [Bool.not_eq_true', beq_eq_false_iff_ne, ne_eq]; omega
+  · simp only [decide_eq_true_eq]; omega
+
+theorem hist_noRemoval : NoRemoval hist := by
+  intro op hop
+  simp only [hist, List.mem_cons, List.not_mem_nil, or_false] at hop
+  rcases hop with h | h | h | h | h | h | h | h | h | h | h | h <;> subst h <;> exact ⟨_, _, _, rfl⟩
+
+set_option maxRecDepth 4000 in
+theorem ds_wf : WFAllB bo3 ds bsOf := by
+  refine ⟨by decide, ?_, by decide⟩
+  intro d hd
+  simp only [ds, List.mem_cons, List.not_mem_nil, or_false] at hd
+  rcases hd with h | h | h | h | h <;> subst h
+  · exact ⟨⟨trivial, by decide, by decide, by decide⟩, by decide, ⟨rfl, by decide, by decide, by decide⟩,
+      fun ⟨_, hk⟩ => by cases hk⟩
+  · exact ⟨⟨trivial, by decide, by decide, by decide⟩, by decide, ⟨rfl, by decide, by decide, by decide⟩,
+      fun ⟨_, hk⟩ => by cases hk⟩
+  · exact ⟨⟨trivial, by decide, by decide, by decide⟩, by decide, ⟨rfl, by decide, by decide, by decide⟩,
+      fun ⟨_, hk⟩ => by cases hk⟩
+  · exact ⟨⟨trivial, by decide, by decide, by decide⟩, by decide, ⟨rfl, by decide, by decide, by decide⟩,
+      fun ⟨_, hk⟩ => by cases hk⟩
+  · exact ⟨⟨trivial, by decide, by decide, by decide⟩, by decide, ⟨by decide, by decide, by decide, by decide⟩,
+      fun _ => by decide⟩
+
+theorem ds_f14 : ∀ d ∈ ds, ∀ bs, d.decl.kind = Kind.histogram bs → sumExposed (bs.map (·.1)) = true := by
+  intro d hd bs hk
+  simp only [ds, List.mem_cons, List.not_mem_nil, or_false] at hd
+  rcases hd with h | h | h | h | h <;> subst h <;> simp at hk
+  subst hk
+  decide
+
+/-- every hypothesis of `backends_equivalent_partial` is met by the declarations and the history above -/
+theorem example_equivalent : ∃ out, mpCollect bo3 (runMmap ds "7".toList clock hist) = .ok out ∧
+    ∀ kv, kv ∈ normalise ds (neverSetOf ds hist) (flatMp out) ↔
+      kv ∈ normalise ds (neverSetOf ds hist) (flatMutex ds (collect (runMutex ds hist))) :=
+  PromVerif.Props.C12.backends_equivalent_partial bo3 ds bsOf ds_wf ds_f14 int_zero_add int_lt_irrefl "7".toList
+    (by decide) clock clock_pos hist hist_noRemoval
+
+/-- both normalised collections of one case, as lists -/
+def bothSides (bo : BOps Nat) (ds : List (MDecl Int)) (h : List (Op Int)) : List (SKey × Int) × List (SKey × Int) :=
+  let ns := neverSetOf ds h
+  let a := normalise ds ns (flatMutex ds (collect (runMutex ds h)))
+  match mpCollect bo (runMmap ds "7".toList clock h) with
+  | .ok out => (a, normalise ds ns (flatMp out))
+  | .error _ => (a, [])
+
+/-! ### F14: a histogram whose first bound is negative -/
+
+def hneg : MDecl Int :=
+  ⟨⟨"h".toList, .histogram [(-1, "-1.0".toList), (1, "1.0".toList), (1000000, "inf".toList)], []⟩, "doc".toList, []⟩
+
+def boNeg : BOps Nat := tblB ["-1.0".toList, "1.0".toList, "+Inf".toList]
+
+set_option maxRecDepth 100000 in
+set_option synthInstance.maxSize 2000 in
+/-- **F14 in the models** (kernel-checked): `Histogram('h', buckets=[-1, 1]).observe(1)`: the file-backed path reports
+`h_sum = 1`, the in-memory path has no `h_sum` series; everything else agrees -/
+theorem negative_first_bound_sum_differs :
+    (("h_sum".toList, ([] : Labels)), (1 : Int)) ∈ (bothSides boNeg [hneg] [.call 0 .none (.observe 1)]).2 ∧
+    (∀ v : Int, (("h_sum".toList, ([] : Labels)), v) ∉ (bothSides boNeg [hneg] [.call 0 .none (.observe 1)]).1) ∧
+    (bothSides boNeg [hneg] [.call 0 .none (.observe 1)]).2.length
+      = (bothSides boNeg [hneg] [.call 0 .none (.observe 1)]).1.length + 1 := by
+  refine ⟨by decide, ?_, by decide⟩
+  intro v hv
+  have : ∀ kv ∈ (bothSides boNeg [hneg] [.call 0 .none (.observe 1)]).1, kv.1.1 ≠ "h_sum".toList := by decide
+  exact this _ hv rfl
+
+/-! ### F25: remove() / clear() do not reach the files -/
+
+def cnt : MDecl Int := ⟨⟨"c".toList, .counter, ["l".toList]⟩, "doc".toList, []⟩
+
+set_option maxRecDepth 100000 in
+set_option synthInstance.maxSize 2000 in
+/-- **F25 in the models**: `c.labels('a').inc(2); c.remove('a')`: the in-memory collection is empty, the file-backed one
+still reports `c_total{l="a"} 2` -/
+theorem remove_not_propagated :
+    bothSides bo3 [cnt] [.call 0 (.labels [.str "a".toList] []) (.inc 2), .remove 0 [.str "a".toList]]
+      = ([], [(("c_total".toList, [("l".toList, "a".toList)]), 2)]) := by decide
+
+set_option maxRecDepth 100000 in
+set_option synthInstance.maxSize 2000 in
+/-- … and a child re-created after `remove()` restarts from zero in memory but continues from the old entry in the file:
+`inc(2); remove; inc(1)` collects 1 in-process and 3 through the files -/
+theorem recreated_child_continues :
+    bothSides bo3 [cnt] [.call 0 (.labels [.str "a".toList] []) (.inc 2), .remove 0 [.str "a".toList],
+        .call 0 (.labels [.str "a".toList] []) (.inc 1)]
+      = ([(("c_total".toList, [("l".toList, "a".toList)]), 1)], [(("c_total".toList, [("l".toList, "a".toList)]), 3)]) := by
+  decide
+
+/-! ### what the example computes -/
+
+set_option maxRecDepth 100000 in
+set_option synthInstance.maxSize 2000 in
+/-- the two normalised collections of the example are permutations of one another (here: checked by the kernel on the
+concrete lists; `example_equivalent` is the general statement) — 11 series: two counter children (6, 3), the set
+mostrecent child (7; the never-set child is absent from both), the `all` gauge without its pid label (5), summary
+count/sum (1, 6), histogram buckets 0/1/2, count 2, sum 12 -/
+example : (bothSides bo3 ds hist).1.length = 11 ∧ (bothSides bo3 ds hist).2.length = 11 ∧
+    ∀ kv ∈ (bothSides bo3 ds hist).1, kv ∈ (bothSides bo3 ds hist).2 := by decide
+
+end PromVerif.Props.C12.Example
